@@ -105,7 +105,7 @@ def run_one(name, d, meta, props, repo="/repo"):
 def run(kind="seeded", only=None, props=None, jobs=4, repo="/repo", own_only=False):
     seeds = list_seeds(kind)
     if only:
-        seeds = [s for s in seeds if s[0] in only]
+        seeds = [s for s in seeds if s[0] in only or any(s[0].startswith(o) for o in only)]
     out = []
     with concurrent.futures.ThreadPoolExecutor(max_workers=jobs) as ex:
         futs = []
